@@ -248,7 +248,42 @@ def followup():
     return [body0(), body1(), run({"lo": 1, "hi": 2}), run({"off": "x", "lo": 3, "hi": 1}), repr(apischema.deserialize(VBase, {"lo": 0, "hi": 1}))]
 '''
 
-QUICK = ["H1_deser_selfrec", "H2_ser_selfrec", "H3_shared_member", "H4_mutual", "H7_plain_control", "H10_schema_same_direction", "H13_inherited_validator"]
+# lazy conversions (the ones registered by @discriminator for its subclasses, and an explicit deserializer(lazy=...)) resolved for
+# the first time from both threads
+H_SRC["H14_lazy_conversions"] = '''
+from apischema.conversions import Conversion
+@discriminator("type")
+@dataclass
+class Shape(metaclass=DetMeta):
+    pass
+@dataclass
+class Circle(Shape):
+    r: int = 0
+@dataclass
+class Square(Shape):
+    s: int = 0
+class LK:
+    def __init__(self, x): self.x = x
+    def __repr__(self): return f"LK({self.x})"
+def lk_from_int(x: int) -> LK: return LK(x)
+def lk_to_int(k: LK) -> int: return k.x
+deserializer(lazy=lambda: Conversion(lk_from_int, source=int, target=LK), target=LK)
+serializer(lazy=lambda: Conversion(lk_to_int, source=LK, target=int), source=LK)
+@dataclass
+class HoldsLK(metaclass=DetMeta):
+    k: LK
+    shape: Optional[Shape] = None
+def run(f):
+    try: return repr(f())
+    except ValidationError as e: return repr(e.errors)
+def body0(): return run(lambda: apischema.deserialize(HoldsLK, {"k": 1, "shape": {"type": "Circle", "r": 2}}))
+def body1(): return run(lambda: (apischema.deserialize(Shape, {"type": "Square", "s": 3}), apischema.deserialize(LK, 4), apischema.serialize(HoldsLK, HoldsLK(LK(5), Circle(6)))))
+BODIES = [body0, body1]
+def followup():
+    return [body0(), body1(), run(lambda: apischema.serialize(Shape, Square(7))), run(lambda: apischema.deserialize(List[LK], [8, "x"]))]
+'''
+
+QUICK = ["H1_deser_selfrec", "H2_ser_selfrec", "H3_shared_member", "H4_mutual", "H7_plain_control", "H10_schema_same_direction", "H13_inherited_validator", "H14_lazy_conversions"]
 ALL = list(H_SRC)
 
 
